@@ -83,7 +83,7 @@ for variant, cls in (('inverse', 'KFACInverseLayer'), ('eigen', 'KFACEigenLayer'
     REFR = ('refreshed_on_schedule', f'implies({INV_STEP}, all(' + refreshed(L_, 'self._layers[m][0]', 'D0') + ' for m in self._layers))')
     KEPT_F = ('factors_kept_off_schedule', f'implies(not {FAC_STEP}, all(' + factors_identity_kept(L_) + ' for m in self._layers))')
     contract(
-        f'{P}.step#{variant}', props=['C05', 'C03', 'C10', 'C13', 'C07'],
+        f'{P}.step#{variant}', props=['C05', 'C03', 'C10', 'C13', 'C07', 'C01'],
         class_map={'KFACBaseLayer': cls},
         requires=SELF_OK + [('layers_configured', CONFIG_OK)] + MUTS,
         may_raise=['RuntimeError', 'AssertionError', 'NonSquareTensorError'],
@@ -191,7 +191,7 @@ for variant, cls in (('inverse', 'KFACInverseLayer'), ('eigen', 'KFACEigenLayer'
               + MUT_VARIANT[variant]]
     LINV = SHAPES
     contract(
-        f'{P}.load_state_dict#{variant}', props=['C09', 'C03', 'C05'], class_map={'KFACBaseLayer': cls},
+        f'{P}.load_state_dict#{variant}', props=['C09', 'C03', 'C05', 'C01'], class_map={'KFACBaseLayer': cls},
         params={'state_dict': STATE, 'compute_inverses': KBool},
         requires=[('valid_state', "'steps' in state_dict and state_dict['steps'] >= 0"),
                   ('hyperparameters_in_state_are_numbers',
